@@ -116,7 +116,7 @@ def main(tier, seed):
                 pass
         return k, res, info, True
 
-    for k, res, info, judged in run.pmap(one, range(ncases)):
+    for k, res, info, judged in run.pmap_proc(one, range(ncases), chunk=4):
         nt = judged and (info['N'] >= 2 or any(op in info['ops'] for op in ('abs', 'min', 'max', 'if', 'count', 'pl', '^2', '*', 'numberof')))
         ctx.count('%d|%s|%d|%d|%s' % (info['N'], info['objno'], info['multiobj'], info['quadobj'], ','.join(info['ops'])[:60]), nontrivial=nt)
         ctx.bump('points_compared', info.get('points_checked', 0))
